@@ -210,6 +210,15 @@ theorem zernike_basis_independent_instance_normalised :
     blockOf 4 3 ex3Basis = !![1, 2, 0; 1, 0, -2; 1, -1, 0; 0, 0, 0] ∧ IsUnit ((blockOf 4 3 ex3Basis)ᵀ * blockOf 4 3 ex3Basis).det :=
   ⟨ex3Basis_entries, ex3Basis_independent⟩
 
+/-- **the formula the theorems use for `np.linalg.pinv(basis)` is the Moore–Penrose inverse, and the only one**: under the independence hypothesis
+`P = (BᵀB)⁻¹Bᵀ` satisfies the four Penrose equations `B P B = B`, `P B P = P`, `(B P)ᵀ = B P`, `(P B)ᵀ = P B`, and ANY matrix `X` with
+`B X B = B` and `(B X)ᵀ = B X` equals it. So the trusted contract is exactly NumPy's documented one — "`pinv` returns the Moore–Penrose
+pseudo-inverse" — not an ad-hoc formula. -/
+theorem pinv_formula_is_moore_penrose {F : Type} [Field F] (B : Matrix P M F) (h : IsUnit (Bᵀ * B).det) :
+    (B * pinvFR B * B = B ∧ pinvFR B * B * pinvFR B = pinvFR B ∧ (B * pinvFR B)ᵀ = B * pinvFR B ∧ (pinvFR B * B)ᵀ = pinvFR B * B) ∧
+    ∀ X : Matrix M P F, B * X * B = B → (B * X)ᵀ = B * X → X = pinvFR B :=
+  ⟨pinvFR_penrose B h, fun X h1 h3 => pinvFR_unique B X h h1 h3⟩
+
 /-- **the two contractions of the code are the REGENERATED `Gen.fitContract` / `Gen.removeContract`** (translated from the einsum subscript
 strings `'ij,i->j'` and `'ijk,i->jk'`): each sums its first index against the vector; the executable model's `B·c` IS the generated
 contraction of `zernike_remove`. Changing a subscript string changes these definitions (or their argument order) and breaks this theorem and
